@@ -3,6 +3,8 @@
 
 #include "sched.hpp"
 
+#include <cstdio>
+#include <cstdlib>
 #include <cstring>
 
 extern "C" {
@@ -41,4 +43,49 @@ extern "C" void __tsan_on_report( void* report)
       __tsan_get_report_mop( report, static_cast< unsigned long>( k), &a.tid, &a.addr, &a.size, &a.write, &a.atomic, a.pc, 4);
       ++g_race.accesses;
    }
+}
+
+// ----- libc functions that return a pointer to one static object
+// (localtime, gmtime): not thread-safe by definition, but ThreadSanitizer
+// cannot see inside libc. The write to the shared object is made visible here,
+// so that two threads calling them without a common lock are reported as what
+// they are - a data race on that object.
+
+#include <dlfcn.h>
+#include <time.h>
+
+extern "C" {
+void __tsan_write8( void* addr) __attribute__(( weak));
+struct tm* __interceptor_localtime( const time_t*) __attribute__(( weak));
+struct tm* __interceptor_gmtime( const time_t*) __attribute__(( weak));
+}
+
+namespace {
+template< typename F> F nextFn( F interceptor, const char* name)
+{
+   if (interceptor != nullptr) return interceptor;
+   return reinterpret_cast< F>( dlsym( RTLD_NEXT, name));
+}
+}
+
+extern "C" struct tm* localtime( const time_t* t)
+{
+   static auto  real = nextFn( &__interceptor_localtime, "localtime");
+   struct tm*   res = real( t);
+   // (as a plain 8 byte store of instrumented code: races found in range
+   // accesses of interceptors are reported once per process only)
+   if (res != nullptr && __tsan_write8 != nullptr)
+      __tsan_write8( res);
+   return res;
+}
+
+extern "C" struct tm* gmtime( const time_t* t)
+{
+   static auto  real = nextFn( &__interceptor_gmtime, "gmtime");
+   struct tm*   res = real( t);
+   // (as a plain 8 byte store of instrumented code: races found in range
+   // accesses of interceptors are reported once per process only)
+   if (res != nullptr && __tsan_write8 != nullptr)
+      __tsan_write8( res);
+   return res;
 }
